@@ -92,7 +92,7 @@ http_entity_set_data(nni_http_entity *entity, const void *data, size_t size)
 static nng_err
 http_entity_alloc_data(nni_http_entity *entity, size_t size)
 {
-	void *newdata;
+	void *newdata = NULL;
 	if (size != 0) {
 		if ((newdata = nni_zalloc(size)) == NULL) {
 			return (NNG_ENOMEM);
